@@ -586,7 +586,7 @@ Theorem parser_never_out_of_fuel :
 Proof.
   intros hl hd hs autovars switches ee fc cli_font cli_maxlen src H. unfold parse_program in H.
   destruct (parse_tops autovars switches ee (parse_format fc cli_font cli_maxlen ee) (5 * List.length (lex hl hd hs src) + 4) _ (lex hl hd hs src)) as [st|e| |] eqn:E.
-  - destruct (dup_text [] (htexts (ph st) ++ ptexts st)); [discriminate|]. destruct (dup_mov [] (ptops st ++ hmovs (ph st))); discriminate.
+  - destruct (dup_text [] _); [discriminate|]. destruct (dup_mov [] _); discriminate.
   - discriminate.
   - discriminate.
   - exact (parser_never_out_of_fuel_partial hl hd hs autovars switches ee fc cli_font cli_maxlen src _ _ (le_n _) E).
